@@ -22,6 +22,32 @@ def key_users(world, crate, transparent=None):
             kt = bv.trace_op(t["args"][1])
             while kt[0] in ("ref", "deref"):
                 kt = kt[1]
+            if kt[0] != "const" and b.get("kind") == "coroutine" and world is not None:
+                # a private async helper that is handed the key (`set_option_int_or_log(storage, KEY, value)`): one user per
+                # call site of the helper, read in the caller — key and value are the caller's arguments
+                ki = lib.async_upvar_param_index(world, bv, kt)
+                vi = lib.async_upvar_param_index(world, bv, bv.trace_op(t["args"][2])) if len(t["args"]) > 2 else None
+                si = lib.async_upvar_param_index(world, bv, bv.trace_op(t["args"][0]))
+                wid = b.get("parent")
+                if ki is not None and wid:
+                    for b2 in crate.bodies:
+                        v2 = BV.of(b2)
+                        for bi2, t2 in v2.calls():
+                            if (t2.get("resolved_id") or t2.get("callee_id")) != wid or ki - 1 >= len(t2["args"]):
+                                continue
+                            kt2 = v2.trace_op(t2["args"][ki - 1])
+                            while kt2[0] in ("ref", "deref"):
+                                kt2 = kt2[1]
+                            if kt2[0] != "const":
+                                continue
+                            args2 = [t2["args"][si - 1] if si else t["args"][0], t2["args"][ki - 1]]
+                            val2 = None
+                            if vi is not None and vi - 1 < len(t2["args"]):
+                                args2.append(t2["args"][vi - 1])
+                                val2 = terms.render(v2, v2.trace_op(t2["args"][vi - 1]), world, {}, transparent=tr)
+                            out.append({"bv": v2, "bi": bi2, "name": t["name"], "trait": t["trait"], "key_def": kt2[1].get("def"), "key_val": lib.term_const(crate, kt2),
+                                        "key_term": terms.render(v2, kt2, world, {}), "value": val2, "loc": lib.loc(v2, bi2), "t": dict(t2, args=args2, name=t["name"]), "via_helper": b["name"]})
+                    continue
             kdef = kt[1].get("def") if kt[0] == "const" else None
             kval = lib.term_const(crate, kt) if kt[0] == "const" else None
             val = None
